@@ -187,14 +187,24 @@ class Region:
             parts.append(("" if v else "¬") + k)
         return ", ".join(parts)
 
+    # symbol -> (base symbol, monotone non-decreasing int function): a value derived from one source (e.g. trunc(d/2 - 25)); its range follows
+    # the base's range in the region and a split on it is a split of the base at the first value that reaches the cut
+    DERIVED: Dict[str, tuple] = {}
+
     def lo(self, s):
         if s.startswith("["):
             return int(self.preds[s[1:-1]]) if s[1:-1] in self.preds else 0
+        if s in self.DERIVED and s not in self.domains:
+            base, f = self.DERIVED[s]
+            return f(self.lo(base))
         return self.domains[s][0][0]
 
     def hi(self, s):
         if s.startswith("["):
             return int(self.preds[s[1:-1]]) if s[1:-1] in self.preds else 1
+        if s in self.DERIVED and s not in self.domains:
+            base, f = self.DERIVED[s]
+            return f(self.hi(base))
         return self.domains[s][-1][1]
 
     def split(self, source, cut):
@@ -500,6 +510,12 @@ class BitEval:
                 if thr.denominator != 1:
                     return op == "!="
                 cut = int(thr) if self.region.lo(s) < thr else int(thr) + 1
+            if s in Region.DERIVED and s not in self.region.domains:
+                base, f = Region.DERIVED[s]
+                first = next((v for v in range(self.region.lo(base), self.region.hi(base) + 1) if f(v) >= cut), None)
+                if first is None or first == self.region.lo(base):
+                    return Top(f"comparison {la} {op} {lb} not decided in region")
+                raise NeedSplit(base, first, why=f"{la} {op} {lb}")
             raise NeedSplit(s, cut, why=f"{la} {op} {lb}")
         return Top(f"comparison {la} {op} {lb} not decided in region")
 
